@@ -507,6 +507,64 @@ func runC17(r *vk.Run) {
 			_ = f.Close()
 		}
 	})
+	// thorough: the built plugin with hostile queries and flags against the fake daemon
+	if r.Thorough() {
+		r.Phase("e2e", 300, func(c *vk.Case) {
+			rng := c.Rng
+			inv := []CSpec{{ID: "id0", Name: "/c0", Image: "img", State: "running", Labels: map[string]string{"a.b": "x"}}, {ID: "id1", Name: "/c1", Image: "img", State: "exited"}}
+			lines := hostileLines(rng, false)
+			for i := range inv {
+				for j := 0; j < 6; j++ {
+					inv[i].Frames = append(inv[i].Frames, Frame{Type: byte(1 + j%2), TS: metricT0 + int64(j)*1e9 + int64(i), Body: vk.Pick(rng, lines)})
+				}
+			}
+			d, err := startFakeDaemon(inv, rng.Bool())
+			if err != nil {
+				c.R.Inconclusive("fake daemon: " + err.Error())
+				return
+			}
+			defer d.Close()
+			q, class := mutateQuery(rng, vk.Pick(rng, c17Seeds))
+			if rng.Chance(1, 3) {
+				q, class = vk.Pick(rng, c17Seeds), "grammar-seed"
+			}
+			q = strings.ReplaceAll(q, `job="j"`, `container=~"c.*"`)
+			if strings.ContainsRune(q, 0) {
+				q = strings.ReplaceAll(q, "\x00", "?") // exec cannot pass NUL in arguments
+			}
+			args := []string{q, "--start", vk.Pick(rng, []string{"1699999990", "1699999990.5", "2023-11-14T22:13:10Z", "garbage", "-1", "99999999999999999999"}),
+				"--end", vk.Pick(rng, []string{"1700000100", "1700000100000000000", "2023-11-14T22:15:00+01:00", "0", "1e9"})}
+			if rng.Bool() {
+				args = append(args, "--limit", vk.Pick(rng, []string{"-5", "0", "1", "3", "999999999"}))
+			}
+			if rng.Bool() {
+				args = append(args, "--step", vk.Pick(rng, []string{"1", "0.001", "1h", "0", "-1", "inf", "NaN", "1e400", "abc", "9999999d"}))
+			}
+			if rng.Bool() {
+				args = append(args, "--since", vk.Pick(rng, []string{"1h", "0", "99999y", "abc", "-1h"}))
+			}
+			if rng.Bool() {
+				args = append(args, fmt.Sprintf("--color=%v", rng.Bool()))
+			}
+			pr, err := runPlugin(d, 90*time.Second, args...)
+			c.Eval(1)
+			if err != nil {
+				c.R.Inconclusive("cannot run plugin binary: " + err.Error())
+				return
+			}
+			det := map[string]any{"args": args, "class": class, "stdout": trunc(string(pr.Stdout), 2000), "stderr": trunc(string(pr.Stderr), 6000), "exit": pr.Exit}
+			se := string(pr.Stderr)
+			switch {
+			case pr.TimedOut:
+				c.Fail("", fmt.Sprintf("plugin did not finish within 90s: %q", args), det)
+			case strings.Contains(se, "panic:") || strings.Contains(se, "fatal error:") || strings.Contains(se, "goroutine 1 ["):
+				c.Fail("", fmt.Sprintf("plugin crashed: %q: %s", args, trunc(se, 300)), det)
+			default:
+				c.Count("e2e_runs", 1)
+				c.Count(fmt.Sprintf("e2e_exit:%d", pr.Exit), 1)
+			}
+		})
+	}
 	r.SetExtra("slowest_evaluation", slowest)
 	func() {
 		c := r.CaseFor("eval", 0)
